@@ -116,6 +116,14 @@ impl Gen {
         let ci = self.rng.below(self.cas.len() as u64) as usize;
         let ca = self.cas[ci].clone();
         let roll = self.profile.contains("roll");
+        // profile `reload`: every fifth op compares live / fresh-store / from-scratch states (C06)
+        if self.profile.contains("reload") && self.rng.chance(22, 100) {
+            return match self.rng.below(5) {
+                0 | 1 => "reloadcheck".into(),
+                2 | 3 => "reloadcheck snap".into(),
+                _ => format!("history {}", ca.name),
+            };
+        }
         // profile `maint`: about a third of the ops are maintenance runs and removals
         if self.profile.contains("maint") && self.rng.chance(35, 100) {
             return match self.rng.below(12) {
